@@ -13,7 +13,7 @@ import vlib
 
 LEVEL = "model_checking"
 R1 = """SPECIFICATION Spec
-CONSTANTS NEvents = %d B = %d Tokens = %d WaitOrderSwapped = %s
+CONSTANTS NEvents = %d B = %d Tokens = %d WaitOrderSwapped = %s LeakTokenOnError = %s
 INVARIANTS MonitorQuiet
 CHECK_DEADLOCK FALSE
 """
@@ -26,13 +26,16 @@ CHECK_DEADLOCK FALSE
 
 def run(ctx):
     quick = ctx.tier == "quick"
-    ctx.tlc_check("EventPipeline", ctx.write_cfg("EventPipeline.r1.cfg", R1 % (3, 2, 1, "FALSE")), label="wait groups, B=2 tokens=1", timeout=3000)
+    ctx.tlc_check("EventPipeline", ctx.write_cfg("EventPipeline.r1.cfg", R1 % (3, 2, 1, "FALSE", "FALSE")), label="wait groups, B=2 tokens=1", timeout=3000)
     if not quick:
-        ctx.tlc_check("EventPipeline", ctx.write_cfg("EventPipeline.r1b.cfg", R1 % (4, 2, 2, "FALSE")), label="wait groups, 4 events B=2 tokens=2", timeout=3000)
-        ctx.tlc_check("EventPipeline", ctx.write_cfg("EventPipeline.r1c.cfg", R1 % (3, 3, 2, "FALSE")), label="wait groups, B=3 tokens=2", timeout=3000)
-    bad = ctx.tlc_check("EventPipeline", ctx.write_cfg("EventPipeline.swap.cfg", R1 % (2, 1, 1, "TRUE")), label="backend wait before cloud wait (must fail)", must_pass=False)
+        ctx.tlc_check("EventPipeline", ctx.write_cfg("EventPipeline.r1b.cfg", R1 % (4, 2, 2, "FALSE", "FALSE")), label="wait groups, 4 events B=2 tokens=2", timeout=3000)
+        ctx.tlc_check("EventPipeline", ctx.write_cfg("EventPipeline.r1c.cfg", R1 % (3, 3, 2, "FALSE", "FALSE")), label="wait groups, B=3 tokens=2", timeout=3000)
+    bad = ctx.tlc_check("EventPipeline", ctx.write_cfg("EventPipeline.swap.cfg", R1 % (2, 1, 1, "TRUE", "FALSE")), label="backend wait before cloud wait (must fail)", must_pass=False)
     if bad.violated != "MonitorQuiet":
         raise vlib.MachineryError("vacuity: swapped wait order not refuted")
+    bad = ctx.tlc_check("EventPipeline", ctx.write_cfg("EventPipeline.leak.cfg", R1 % (3, 2, 1, "FALSE", "TRUE")), label="token kept after a failed send (must fail)", must_pass=False)
+    if bad.violated != "MonitorQuiet":
+        raise vlib.MachineryError("vacuity: token leak on a failed send not refuted")
     plans = [("bfs3", 3, None, None), ("sim8", 8, "num=400", 9)] if quick else [("bfs4", 4, None, None), ("sim10", 10, "num=3000", 11)]
     named = {}
     for label, ml, sim, depth in plans:
